@@ -64,6 +64,9 @@ func (FixedWindow) New(cfg Config) fiber.Handler {
 		// Set how many hits we have left
 		remaining := maxRequests - e.currHits
 
+		// Remember the window the hit was counted in
+		expAtHit := e.exp
+
 		// Update storage
 		manager.set(key, e, cfg.Expiration)
 
@@ -91,9 +94,13 @@ func (FixedWindow) New(cfg Config) fiber.Handler {
 			// Lock entry
 			mux.Lock()
 			e = manager.get(key)
-			e.currHits--
-			remaining++
-			manager.set(key, e, cfg.Expiration)
+			// Take the hit back only from the window it was counted in: a handler that
+			// outlived its window must not push the next window's count below zero
+			if e.exp == expAtHit && e.currHits > 0 {
+				e.currHits--
+				remaining++
+				manager.set(key, e, cfg.Expiration)
+			}
 			// Unlock entry
 			mux.Unlock()
 		}
